@@ -36,6 +36,7 @@ RULE = (
     "obligation and the crash point was reached; distinct = distinct (scenario shape, crash point)."
     " Extensions of rounds 9-12: callables raising StopAsyncIteration; a tee source is closed when the last child is done and not before, even if it has reported its end; nested chains / re-split tee children from the tool table."
     " Round 13: tee histories may end by leaving ``async with tee`` (also with a GeneratorExit); the tee may be given a plain lock."
+    " Round 14: a fault that reaches the consumer through a group of a groupby is judged like one raised by the groupby itself (source released when the raise completes)."
 )
 COMPONENTS = COMPONENTS_BASE
 ASSUMPTIONS = [
@@ -434,6 +435,10 @@ async def consumer_groupby(prep, run, cut, res, fault=None):
                     if fault is None or err is not fault[2]:
                         raise
                     res["source_raised"] = True
+                    # the failure reached the consumer through a group of the groupby: the source that was passed
+                    # to the groupby is released by now just as when the groupby's own step fails (round 14)
+                    if src.must_release and not src.released:
+                        problems.append(("groupby_source_not_released", "raise in group", cut))
         res["live_group"] = bool(groups)
         try:
             await gb.aclose()
